@@ -1211,3 +1211,32 @@ Proof.
     destruct IH as (L & F & If & Cf). cbn [length]. split; [lia|split; [constructor; [discriminate|assumption]|split; [assumption|]]].
     replace (n + Z.of_nat (S (length r))) with (n + 1 + Z.of_nat (length r)) by lia. assumption.
 Qed.
+
+(** ** corollaries for histories from the initial state *)
+Theorem no_panic_from_init : forall ops, Z.of_nat (length ops) <= HMAX -> ops_ok t_init ops ->
+  let '(outs, sf) := trun t_init ops in
+  length outs = length ops /\ Forall (fun o => o <> None) outs /\ TInv sf.
+Proof.
+  intros ops Hl Hok. pose proof (trun_safe ops t_init 0 TInv_init counters_init ltac:(lia) Hok) as H.
+  destruct (trun t_init ops) as [outs sf]. tauto.
+Qed.
+
+Lemma next_expiry_after_now s : TInv s ->
+  exists r, next_expiry s = Some r /\ (r = None <-> queue s = []) /\ (forall t, r = Some t -> cnow s < t).
+Proof.
+  intros I. pose proof (next_expiry_ok s I) as E. destruct (queue s) as [|e q] eqn:Eq.
+  - exists None. split; [assumption|split; [tauto|discriminate]].
+  - eexists. split; [exact E|split; [split; discriminate|]]. intros t Ht. injection Ht as <-.
+    pose proof (i_entries s I) as F. rewrite Eq in F. inversion F as [|? ? He _]; subst.
+    pose proof (i_cnow s I). destruct (now_facts _ _ _ (TInv_PH s I)) as [Hnow _].
+    destruct (entry_T_range (now s) e ltac:(lia) He) as [R _].
+    apply inst_after; [lia|]. rewrite <- (i_now s I). assumption.
+Qed.
+
+Theorem next_expiry_after_now_reachable : forall ops, Z.of_nat (length ops) <= HMAX -> ops_ok t_init ops ->
+  let sf := snd (trun t_init ops) in
+  exists r, next_expiry sf = Some r /\ (r = None <-> queue sf = []) /\ (forall t, r = Some t -> cnow sf < t).
+Proof.
+  intros ops Hl Hok. pose proof (no_panic_from_init ops Hl Hok) as H. cbv zeta.
+  destruct (trun t_init ops) as [outs sf]. cbn [snd]. apply next_expiry_after_now. tauto.
+Qed.
